@@ -330,7 +330,8 @@ CHECKS = {
     'C11': dict(
         gens=['CmdTable'],
         props='ZanVerif.Props.C11',
-        protos=[dict(name='data', mode='oracle', quick_seeds=1, thorough_seeds=1, classes='(panic|error-changed-state|proposed-and-|no-reply|hang|proposal-count)')],
+        protos=[dict(name='data', mode='oracle', quick_seeds=1, thorough_seeds=1, classes='(panic|error-changed-state|proposed-and-|no-reply|hang|proposal-count)'),
+                dict(name='mergeargs', mode='oracle', quick_seeds=1, thorough_seeds=2, classes='panic')],
         rule=DATA_RULE,
         trusted=DATA_TRUST,
         partial=['C11_error_no_effect / C11_next_command_unaffected are oracle-only', 'read commands and merge commands: fuzz only'],
